@@ -11,7 +11,8 @@ Mirrors the code as it is:
 * `throwOut`     the inner `for region in tic_region` loop with its two `break`s;
 * `cut`          the final slicing loop (`row[pos:pipe]`, `row[pos:]`);
 * `split`        `_split`;  `splitRow` `_split_row` (`self.border` is a parameter);
-* `endBorderSub` `RE_END_BORDER = (?<!\\)(?:\\\\)*\|$` (`search` and `sub('', …)`);
+* `endBorderSub` `RE_END_BORDER = (?<!\\)((?:\\\\)*)\|$` (`search` and `sub(r'\1', …)`: the repaired code, commit cfd4612;
+                 before the repair the pattern had no group and `sub('', …)` deleted the backslashes too, F-C16-1);
 * `alignOf`      the alignment loop of `run`;  `buildRow` the cell texts made by `_build_row`;
 * `tableTest`    `test` (answers the border and the separator row it stores on `self`);
 * `tableRun`     `run` as a value: alignments, header cells, body rows.
@@ -114,15 +115,18 @@ def split (row : Str) : List Str := cut 0 row (goodPipes row)
 
 /-! ### borders -/
 
-/-- `RE_END_BORDER.sub('', row)` when `RE_END_BORDER.search(row)` matches: the match is the whole run of
-    backslashes (of even length) before a pipe that ends the row (`$`: at the end or before a final newline) -/
+/-- `RE_END_BORDER.sub(r'\1', row)` when `RE_END_BORDER.search(row)` matches: the match is the whole run of
+    backslashes (of even length, group 1) and the pipe that ends the row (`$`: at the end or before a final
+    newline); the substitution keeps group 1, so only the pipe disappears.  (Before the repair of F-C16-1 the
+    substitution was `sub('', row)` and the run of backslashes — escaped backslashes that end the last cell — was
+    deleted together with the pipe.) -/
 def endBorderSub (row : Str) : Option Str :=
   let rev := row.reverse
   let body := if rev.head? = some '\n' then rev.tail else rev
   let nl : Str := if rev.head? = some '\n' then ['\n'] else []
   if body.head? = some '|' then
     let k := spanLen (fun c => c = '\\') body.tail
-    if k % 2 = 0 then some ((body.tail.drop k).reverse ++ nl) else none
+    if k % 2 = 0 then some (body.tail.reverse ++ nl) else none
   else none
 
 /-- `RE_END_BORDER.search(row) is not None` -/
